@@ -17,7 +17,7 @@ from pyanalyze.signature import ParameterKind, Signature, SigParameter
 
 LIT_SRCS = [o.src for o in UNIVERSE if o.kind in ("scalar", "enum", "container")] + ["A_INST", "int", "A", "len"]
 CLASSES = ["int", "bool", "str", "bytes", "float", "complex", "object", "A", "B", "C", "D", "E", "IE",
-           "list", "dict", "tuple", "type", "HasX", "SupportsClose", "G"]
+           "list", "dict", "tuple", "type", "HasX", "SupportsClose", "G", "NodeP", "EdgeP", "MyNode", "MyEdge", "Pops"]
 GENERIC1 = ["list", "set", "frozenset", "Sequence", "Iterable", "Collection", "G"]
 GENERIC2 = ["dict", "Mapping"]
 TYPEVARS = ["T", "U", "TB", "TC"]
